@@ -79,12 +79,15 @@
         return result; \
     } \
 \
-    if (ISDIGIT(brs[1])) { /* ip address, possibly ipv4 */ \
+    if (ISDIGIT(brs[1])) { /* ipv4, or ipv6 without the tag */ \
         if (is_ipaddr (brs + 1, bre) == 0) { \
             result->rc = inverse(EEAV_IPADDR_INVALID); \
             return result; \
         } \
-        result->is_ipv4 = true; \
+        if (strchr (brs + 1, ':') != NULL) /* as is_ipaddr() decides */ \
+            result->is_ipv6 = true; \
+        else \
+            result->is_ipv4 = true; \
     } \
     else { /* IPv6-address-literal = "IPv6:" IPv6-addr */ \
         ch = brs + 6; \
